@@ -411,7 +411,7 @@ type RulesBasedSamplerCondition struct {
 	Field    string                            `json:"field" yaml:"Field"`
 	Fields   []string                          `json:"fields" yaml:"Fields,omitempty"`
 	Operator string                            `json:"operator" yaml:"Operator" validate:"required"`
-	Value    any                               `json:"value" yaml:"Value" `
+	Value    any                               `json:"value" yaml:"Value,omitempty"` // nil (exists / not-exists) is omitted, not written as null
 	Datatype string                            `json:"datatype" yaml:"Datatype,omitempty"`
 	Matches  func(value any, exists bool) bool `json:"-" yaml:"-"`
 
